@@ -437,6 +437,9 @@ func c02GenScenario(r *core.Run) *c02Scenario {
 	}
 	sc.State = append([]uint32(nil), st.Record()...)
 	nsteps := t.Range(2, 8)
+	if r.Tier == "thorough" && t.Chance(1, 3) {
+		nsteps = t.Range(8, 20) // longer histories in the thorough tier
+	}
 	for i := 0; i < nsteps; i++ {
 		vg := &gen.Values{T: t, C: gen.JSON, MaxMap: 3, MaxLen: 4}
 		v := vg.New(rt)
